@@ -8,7 +8,7 @@ from gx.props import _hist
 
 PROP = "C31"
 CFG = {"oracles": ('direct', 'replica'), "n_bundles": 14, "hook": 'gx.props.c31.install',
-       "profile": {"summary": 5, "add_formula_column": 7, "add_record": 16, "update_record": 16, "remove_record": 8,
+       "profile": {"add_empty_column": 6, "summary": 5, "add_formula_column": 7, "add_record": 16, "update_record": 16, "remove_record": 8,
                    "undo_earlier": 0, "malformed": 2, "remove_table": 0.3, "remove_column": 1}}
 TIE_KINDS = ('direct', 'driver')
 
